@@ -204,9 +204,10 @@ RdOps(i) == {j \in 1..NOps(i) : Ops(i)[j].proc \in {"READDIR", "READDIRPLUS"}}
 \* Dev_ReaddirplusAttrsNotASnapshot.  READDIRPLUS takes the names from one directory read but fetches
 \* the attributes of every entry afterwards, one Lstat per entry: the reply can pair the type an entry
 \* had early during the request with the type another entry got later (x REG, y LNK -> RENAME y x,
-\* MKDIR y -> x LNK, y DIR; reply: x REG, y DIR).  Exact condition: the names are the ideal listing at
-\* the linearization point and every reported type is a type that entry had in some state since the
-\* request became ready.  Only tried where the ideal rule rejects.
+\* MKDIR y -> x LNK, y DIR; reply: x REG, y DIR).  Exact condition: the names are the listing of one
+\* state and every reported type is the type that entry had in some state, all of these states lying
+\* between the request becoming ready and its linearization point (which is then the last of the
+\* observations).  Only tried where the ideal rule rejects.
 DevRdAttr == "Dev_ReaddirplusAttrsNotASnapshot"
 \* what a pending READDIR / READDIRPLUS could have seen of its directory: [dir, names, kinds] per state
 ObsD(tr, p) == [dir |-> IsDir(tr, p), names |-> IF IsDir(tr, p) THEN NamesInD(tr, p) ELSE {},
@@ -221,7 +222,8 @@ ReaddirAttrDevOk(i, s, sn, tr, j) ==
   IN /\ Known(DevRdAttr) /\ j \in DOMAIN sn /\ o.ok /\ o.rcomplete /\ o.proc = "READDIRPLUS"
      /\ ~ReadTypeOk(i, s, tr, o)
      /\ Len(o.rnames) = Cardinality(got)
-     /\ \E l \in LStates(i, s, tr, o.h) : l.dir /\ got = l.names
+     /\ \/ \E l \in LStates(i, s, tr, o.h) : l.dir /\ got = l.names
+        \/ \E rec \in sn[j] : rec.dir /\ got = rec.names
      /\ \A x \in DOMAIN o.rnames :
           \/ o.rtypes[x] = ""
           \/ \E c \in KStates(i, s, tr, Append(o.h, o.rnames[x])) : o.rtypes[x] = TypeName(c.k)
@@ -238,6 +240,28 @@ ReaddirDevOk(i, s, sn, tr, j) ==
      /\ o.proc = "READDIRPLUS" =>
           \A x \in DOMAIN o.rnames :
              o.rtypes[x] = "" \/ \E c \in KStates(i, s, tr, Append(o.h, o.rnames[x])) : o.rtypes[x] = TypeName(c.k)
+
+\* Dev_SetattrTrustsStaleHandleMode.  SETATTR changes the mode only if the requested mode differs from
+\* the mode the handle's node believes the object to have; when the mode was changed through another
+\* handle (a symbolic link to the object) the belief is stale and SETATTR back to the believed mode
+\* replies OK without touching the backend.  Exact condition: a successful SETATTR(mode, no size) that
+\* leaves the tree unchanged although the requested mode differs from the object's, the requested mode
+\* being one the handle knew: the object's initial mode, or one set / created through this path by a
+\* request already linearized.
+DevSa == "Dev_SetattrTrustsStaleHandleMode"
+KnownPerms(i, d, p) ==
+  (IF p \in DOMAIN InitT(i) THEN {InitT(i)[p].perm} ELSE {})
+  \cup {Perm(Ops(i)[x].mode) : x \in {y \in d : /\ Ops(i)[y].ok
+                                               /\ \/ Ops(i)[y].proc = "SETATTR" /\ Ops(i)[y].hasmode /\ Ops(i)[y].h = p
+                                                  \/ Ops(i)[y].proc = "MKDIR" /\ C(Ops(i)[y]) = p
+                                                  \/ Ops(i)[y].proc = "CREATE" /\ Ops(i)[y].hasmode /\ C(Ops(i)[y]) = p}}
+  \cup (IF \E y \in d : Ops(i)[y].ok /\ Ops(i)[y].proc = "CREATE" /\ ~Ops(i)[y].hasmode /\ C(Ops(i)[y]) = p THEN {420} ELSE {})
+SetattrStaleDevOk(i, d, tr, j) ==
+  LET o == Ops(i)[j] IN
+  /\ Known(DevSa) /\ o.proc = "SETATTR" /\ o.ok /\ o.hasmode /\ ~o.hassize
+  /\ Kind(tr, o.h) \in {"F", "D"}
+  /\ Perm(o.mode) # tr[o.h].perm
+  /\ Perm(o.mode) \in KnownPerms(i, d, o.h)
 
 Accepting == done = 1..NOps(h) /\ t = TLCGet(Pre(h)).ft
 
@@ -330,6 +354,7 @@ Step == /\ Searched(h)
              /\ \/ \E t2 \in Succ(h, seen, t, Ops(h)[j]) : t' = t2 /\ dv' = dv
                 \/ ReaddirDevOk(h, seen, snap, t, j) /\ t' = t /\ dv' = dv \cup {DevRd}
                 \/ ReaddirAttrDevOk(h, seen, snap, t, j) /\ t' = t /\ dv' = dv \cup {DevRdAttr}
+                \/ SetattrStaleDevOk(h, done, t, j) /\ t' = t /\ dv' = dv \cup {DevSa}
              /\ seen' = IF Stale(h) /\ t' # t THEN SeenAdd(seen, t') ELSE seen
              /\ snap' = SnapUpd(h, snap, done', t')
         /\ UNCHANGED h
